@@ -283,6 +283,9 @@ def cases(ctx):
     for i in range(n):
         stop = ctx.rng.choice(['first', 'interior', 'last', 'any'])
         d = lensgen.gen_lens(ctx.rng, stop=stop, allow_asphere=ctx.rng.random() < 0.2)
+        if d['surfaces'][0]['thickness'] != 'inf' and ctx.rng.random() < 0.25:
+            # object immersed (water, oil, ...): the object-space index enters the numerical aperture and the invariant
+            d['surfaces'][0]['material'] = {'kind': 'ideal', 'n': lensgen.dyadic(ctx.rng, 1.2, 1.7, 6)}
         out.append({'desc': d})
         if ctx.rng.random() < 0.35:
             # the same lens queried, edited through the public setters, and queried again: results must follow
